@@ -20,7 +20,10 @@ Observed on the real asn1c built from the working tree (exploration, not proof):
      sub-language is proved (coq/Fix/LexValues.v);
  (j) 2-3 module sets with contained-subtype / value-reference chains across the modules, every file order: exit status,
      `-E -F -print-constraints` text per module and per-type files identical; printed combined constraints equal to the
-     resolution model's (coq/Fix/Pullup.v: proved order independent) and to python's own order-free evaluation."""
+     resolution model's (coq/Fix/Pullup.v: proved order independent) and to python's own order-free evaluation;
+ (m) what the output directory already holds (checks/c12_dir.py): sized base modules x option sets x stale directory states ->
+     the tree of the fresh-directory run, whatever was there; what became of each old entry equal to the model's
+     (coq/Fix/IdenticalFiles.v: identical_files proved to decide equality for every block size and length)."""
 import sys, os, itertools, hashlib
 from concurrent.futures import ThreadPoolExecutor
 sys.path.insert(0, os.path.join(os.path.dirname(os.path.abspath(__file__)), "..", "lib"))
@@ -29,6 +32,7 @@ from vlib import *
 import subprocess, re
 import c12_gen as G
 import c12_ops as O
+import c12_dir as D
 
 GEN_OPTS = ["-pdu=all", "-fcompound-names"]
 
@@ -851,6 +855,11 @@ def main(tier):
     nmi = len(O.MI_SHAPES) + (2 if quick else 40)
     misets = [O.modid_set(rng, i, O.MI_SHAPES[i] if i < len(O.MI_SHAPES) else None) for i in range(nmi)]
     mi_futs = [pool.submit(O.case_modid, ctx, i, ms, 24) for i, ms in enumerate(misets)]
+    # (m) what the output directory already holds: sized base modules x option sets x stale directory states (directed: the same in
+    # every run), then random stale states on rich modules; its own Rng stream, so that the other families keep their draws
+    drng = Rng(run.seed * 7919 + 12)
+    dcases = D.directed_cases(run.seed, quick) + D.random_cases(drng, [m["text"] for (m, _, _) in rich[:(6 if quick else 40)]], quick)
+    dir_futs = [pool.submit(D.case_dir, ctx, 70000 + i, c) for i, c in enumerate(dcases)]
     nsets = 12 if quick else 80
     sets = []
     for i in range(nsets):
@@ -1309,6 +1318,25 @@ def main(tier):
         O.eval_modid(run, ms, f.result(), mi_model.get(i) if have_model else None)
     run.sample({"modid_set": dict(misets[0]["files"]), "shape": misets[0]["shape"]})
 
+    # 4g. output directory states: the fresh-directory tree whatever the directory held; decision of identical_files vs the model ----
+    dir_results = [f.result() for f in dir_futs]
+    dir_model = {}
+    if have_model:
+        lines, where = [], []
+        for ci, r in enumerate(dir_results):
+            for (si, fn, ln) in D.entry_lines(dcases[ci], r, cap=40 if quick else 120):
+                lines.append(ln)
+                where.append((ci, si, fn))
+        rcm, mo, me = run_lines(model, lines) if lines else (0, [], "")
+        if rcm != 0 or len(mo) != len(lines):
+            run.violation("model:driver", {"what": "model driver failed (c12_entry)", "stderr": me}, no_input=True)
+        else:
+            for (ci, si, fn), out in zip(where, mo):
+                dir_model.setdefault(ci, {})[(si, fn)] = out
+    for ci, (c, r) in enumerate(zip(dcases, dir_results)):
+        D.eval_dir(run, c, r, dir_model.get(ci) if have_model else None)
+    run.sample({"outdir_case": {k: v for k, v in dcases[2].items() if k != "text"}, "states": [s_["st"]["label"] for s_ in dir_results[2].get("states", [])][:40]})
+
     # 5. shipped corpus ------------------------------------------------------
     for p, f in zip(files, corpus_futs):
         r = f.result()
@@ -1374,7 +1402,8 @@ def main(tier):
 
     aslr = open("/proc/sys/kernel/randomize_va_space").read().strip() if os.path.exists("/proc/sys/kernel/randomize_va_space") else "?"
     tb = ["Coq 8.16.1 kernel", "axioms under Print Assumptions: " + (", ".join(sorted(axioms)) or "none (Closed under the global context)"),
-          "extraction: ExtrOcamlBasic only; OCaml 4.13.1; ocaml/drv_c12.ml, ocaml/drv_c12p.ml (AST readers)",
+          "extraction: ExtrOcamlBasic only; OCaml 4.13.1; ocaml/drv_c12.ml, ocaml/drv_c12p.ml (AST readers), ocaml/drv_c12o.ml, ocaml/drv_c12d.ml",
+          "checks/c12_dir.py: stale-state generator, directory snapshots (kind, bytes, inode), the expected-tree oracle, the classifier of C12-inplace-file-through-symlink",
           "checks/c12.py + checks/c12_gen.py: generator, renderer, yacc_norm (the constraint-tree shape yacc builds), file comparison, finding classifiers",
           "asn1c built by vlib.build_asn1c() from the working tree; kernel.randomize_va_space=" + aslr,
           "valgrind " + ("3.19 memcheck (--error-exitcode, leak check off)" if VALGRIND else "NOT AVAILABLE: uninitialised-read oracle skipped") + "; setarch -R " + ("available" if SETARCH else "not available"),
@@ -1382,6 +1411,7 @@ def main(tier):
     return run.finish("proof", (nthm, ndis), trusted_base=tb,
                       checker_cmd="make -C /verif all && coqc -Q coq A1 coq/Props/Properties_C12.v",
                       extra_cov={"theorems": names,
+                                 "rule4": "also a case: one (base module, option set) pair of the output-directory sweep with all its stale states",
                                  "rule3": "also a case: one cross-module constraint set (2-3 files, 12 shapes of contained-subtype / value-reference chains, every file order)",
                                  "rule2": "also a case: one rich module (text generator, one of 12 option sets), one clash set (2-3 files with cross-module name clashes, every file order), one corpus file compiled to code",
                                  "rule": "a case = one generated module (random AST of the modelled algebra rendered with random layout, comments, UNION/INTERSECTION spellings) or one multi-file module set (all permutations of the file list) or one shipped corpus file",
